@@ -229,3 +229,28 @@ pub(crate) mod kani_wire {
         kani::cover!(len == 8, "reach");
     }
 }
+
+#[cfg(kani)]
+pub(crate) mod kani_param {
+    use super::super::*;
+
+    // C14 witness finder (bounded domain, not a proof): P = 1024 (Al = 8, T = 1024, N_max = 16), 1 <= F <= 2^20,
+    // WS >= 640. In this domain a valid configuration always exists (WS/(8*ceil(1024/(8*16))) >= 10 and Z <= 103),
+    // so the derivation must not panic, must give T = 1024, Al = 8, 1 <= N <= 16, and Z = 1 once the budget admits K' = 56403.
+    #[kani::proof]
+    #[kani::unwind(480)]
+    pub(crate) fn params_defined_for_p1024() {
+        let f: u64 = kani::any();
+        let ws: u64 = kani::any();
+        kani::assume(1 <= f && f <= 1048576);
+        kani::assume(ws >= 640);
+        let c = ObjectTransmissionInformation::generate_encoding_parameters(f, 1024, ws);
+        assert!(c.symbol_size() == 1024 && c.symbol_alignment() == 8, "C14 T = 1024, Al = 8");
+        assert!(c.source_blocks() >= 1, "C14 Z >= 1");
+        assert!(1 <= c.sub_blocks() && c.sub_blocks() <= 16, "C14 1 <= N <= N_max");
+        if ws >= 56403 * 64 {
+            assert!(c.source_blocks() == 1, "C14 a budget admitting K' = 56403 gives one source block for Kt <= 1024");
+        }
+        kani::cover!(ws == 5000, "reach");
+    }
+}
